@@ -62,10 +62,10 @@ def obs (ids qs aids : List Nat) (s : LSt) : String :=
   let r := ";".intercalate (ids.map (fun o => s!"{o}:{natsStr (s.resp o)}"))
   let q := ";".intercalate (qs.map (fun o => s!"{o}:{if s.reg o 1 = 1 then valsStr (s.rows o) else "-"}"))
   let k := ";".intercalate (s.calls.reverse.map (fun c => s!"{c.1}:{valsStr c.2}"))
-  s!"R={r}_Q={q}_K={k}_D={rowsStr s.db}_P={natsStr (aids.filter s.prov)}_C={natsStr (aids.filter s.cons)}_S={natsStr s.subs}_E={s.err}"
+  s!"R={r}_Q={q}_K={k}_D={rowsStr s.db}_P={natsStr (aids.filter s.prov)}_C={natsStr (aids.filter s.cons)}_S={natsStr s.subs}_E={(ids.filter (fun o => s.err o != 0)).length}"
 
 def fullKey (ids qs aids : List Nat) (s : LSt) : String :=
-  let regs := ";".intercalate (ids.map (fun o => natsStr ((List.range 8).map (s.reg o)) ++ "/" ++ rowsRaw (s.rows o) ++ "/" ++
+  let regs := ";".intercalate (ids.map (fun o => natsStr ((List.range 10).map (s.reg o)) ++ "/" ++ rowsRaw (s.rows o) ++ "/" ++
     natsStr (s.regS o) ++ "/" ++ natsStr (s.regT o)))
   s!"{obs ids qs aids s}#{s.nextId}#{rowsRaw s.db}#{regs}"
 
